@@ -111,7 +111,7 @@ def _tlc_jobs(ctx):
         jobs["sim"] = pool.submit(ctx.tlc, "Nuts", cfg="Nuts.sim.cfg", workers=4, mode="simulate", simulate="num=1500",
                                   depth=400, seed=1000 + ctx.seed, timeout=2400, workdir=wd("sim"))
     for name, inv in DEVIATIONS:
-        jobs["dev_" + name] = pool.submit(ctx.tlc, "Nuts", cfg="Nuts.%s.deviation.cfg" % name, workers=2, timeout=900,
+        jobs["dev_" + name] = pool.submit(ctx.tlc, "Nuts", cfg="Nuts.%s.deviation.cfg" % name, workers=2, timeout=2400,
                                           expect_violation=True, workdir=wd("dev" + name))
     res = {}
     err = None
@@ -121,11 +121,17 @@ def _tlc_jobs(ctx):
         except BaseException as ex:      # collect, so that all JVMs have ended before the error is reported
             err = err or ex
     pool.shutdown()
+
+    def discard():                       # nothing of a failed run stays under .work
+        for label in ["main", "kernel", "kernelq", "kernel12", "sim"] + ["dev" + name for name, _ in DEVIATIONS]:
+            _tlc.cleanup(wd(label))
     if err is not None:
+        discard()
         raise err
     for name, inv in DEVIATIONS:
         r = res["dev_" + name]
         if r.ok or r.violated != inv:
+            discard()
             raise MachineryError("deviation %s did not violate %s (got %r): invariant is vacuous" % (name, inv, r.violated))
     for k in ("main", "kernel", "kernelq", "kernel12", "sim"):
         if k in res:
